@@ -9,6 +9,7 @@
 mod expr;
 mod extract;
 mod gen_codes;
+mod gen_fsm;
 mod gen_kernels;
 
 use std::path::{Path, PathBuf};
@@ -49,6 +50,7 @@ fn main() {
 
     gen_kernels::generate(&mut src, &mut out);
     gen_codes::generate(&mut src, &mut out);
+    gen_fsm::generate(&mut src, &mut out);
 
     for w in &out.written {
         println!("rs2lean: {}", w);
